@@ -58,11 +58,26 @@ func runSweep(r *vrun.Run) {
 		// which structural hang witness is taken if the runner does not return (see runBubbleCase)
 		us := off / 1000
 		sc.Confirm = us%16 == 0 || (us >= -2 && us <= 2)
+		if rep >= 1000 {
+			sc.Confirm = rep%4 == 0
+		}
 		idx++
 		cases = append(cases, sc)
 	}
 	kinds := []string{kCoopNil, kCoopErr, kCoopLag, kBlind}
 	parents := []string{pLive, pTm, pT, pTp}
+	// d = T exactly: both outcomes are legal and the scheduler decides, so this point is replicated (the replicates
+	// differ in T/δ/ε and in the order in which the runtime happens to run the goroutines woken at the same instant)
+	eqReps := r.Pick(60, 600)
+	for rep := 1; rep <= eqReps; rep++ {
+		for _, k := range kinds {
+			add(rRAWT, k, pLive, 0, 1000+rep)
+			for _, p := range parents {
+				add(rCtx, k, p, 0, 1000+rep)
+				add(rStore, k, p, 0, 1000+rep)
+			}
+		}
+	}
 	for rep := 0; rep < reps; rep++ {
 		for _, off := range offs {
 			for _, k := range kinds {
